@@ -190,6 +190,31 @@ def eval_int(e, leaf, bits=64):
         return None
     if k == "tfield":
         return eval_int(e[1], leaf, bits) if e[2] == 0 else None
+    if k == "addr":
+        return eval_int(e[1], leaf, bits)
+    if k == "call":
+        v = leaf(e)
+        if v is not None:
+            return v
+        name, args, gs = e[2], e[3], e[4]
+        # byte-granular pointer arithmetic (element type of size 1) and integer helpers
+        elem1 = bool(gs) and gs[0] in ("u8", "i8", "()", "core::ffi::c_void") or name.startswith("byte_") or name.startswith("wrapping_byte_")
+        if name in ("wrapping_add", "add", "byte_add", "wrapping_byte_add", "wrapping_sub", "sub", "byte_sub", "wrapping_byte_sub", "offset", "byte_offset", "wrapping_offset") and len(args) == 2:
+            a = eval_int(args[0], leaf, bits)
+            b = eval_int(args[1], leaf, bits)
+            if a is None or b is None:
+                return None
+            is_ptr = e[1].startswith("<*")
+            if is_ptr and not elem1:
+                return None
+            return (a - b if "sub" in name else a + b) & mask
+        if name in ("addr", "expose_provenance", "with_addr", "cast", "cast_mut", "cast_const", "as_ptr", "new_unchecked") and args:
+            if name == "with_addr" and len(args) == 2:
+                return eval_int(args[1], leaf, bits)
+            return eval_int(args[0], leaf, bits)
+        if name == "map_addr":
+            return None
+        return None
     return leaf(e)
 
 
